@@ -10,10 +10,12 @@ sys.path.insert(0, os.path.join(os.path.dirname(os.path.abspath(__file__)), ".."
 sys.path.insert(0, os.path.dirname(os.path.abspath(__file__)))
 import vlib, build
 import c12
+import c10
 
 PROP = "C09"
 SPEC = os.path.join(vlib.VERIF, "spec", "backend")
 SPEC12 = os.path.join(vlib.VERIF, "spec", "cmdturn")
+SPEC10 = os.path.join(vlib.VERIF, "spec", "callout")
 TTYPE = b"\xff\xfa\x18\x00vt\xff\xf0"
 
 
@@ -31,7 +33,7 @@ class Builder:
             self.ops.append("call master set_policy eh_error #1")
         elif setup["eh"] == "silent":
             self.ops.append("call master set_policy eh_silent #1")
-        self.ops += ["proj hb", "backend"]
+        self.ops += ["proj hb", "proj callouts", "backend"]
         self.conn = set()
         self.objs = set()
         self.kid = 0
@@ -86,6 +88,14 @@ class Builder:
         elif a == "coerr":
             self.obj("o1"); self.kid += 1
             self.cmd("do o1 set=k%d=err;co:A:1:k%d" % (self.kid, self.kid)); o += ["tick 2", "cycle"]
+        elif a in ("copair", "copair2"):
+            # two call_outs due in the same second, one of them fails: the other one must still fire
+            self.obj("o1"); self.obj("o2"); self.kid += 2
+            good = "do o2 co:A:1:k%d" % (self.kid - 1)
+            bad = "do o1 set=k%d=err;co:A:1:k%d" % (self.kid, self.kid)
+            for c in ((good, bad) if a == "copair" else (bad, good)):
+                self.cmd(c)
+            o += ["tick 2", "cycle"]
         elif a == "co_ok":
             self.obj("o2"); self.kid += 1
             self.cmd("do o2 co:A:2:k%d" % self.kid)
@@ -221,7 +231,16 @@ def run(tier, work):
         verdict.add(sig, [json.dumps(allh[idx2[bi]])] + [json.dumps(p) for p in projs2[bi][:upto + 1]],
                     "first unexplainable event #%d: %s" % (upto + 1, json.dumps(bad)))
     print("TLC P3 CmdTurnTrace (same traces): %d executions / %d events accepted" % (acc2, nev2))
-    faults = {"err1", "err2", "hberr", "coerr", "pi_err1", "inputto_err1", "netdead_err", "logon_err", "connect_err",
+    # the timers: the same traces seen through the call_out specification (a failing call_out must not delay or lose the others)
+    projs3 = [c10.project(ex) for ex in exs if not vlib.crashed(ex)]
+    acc3, nev3, rej3 = vlib.validate_executions(SPEC10, "CallOutTrace", "CallOutTrace.cfg", projs3, work, tag="p3d")
+    for bi, upto in rej3:
+        bad = projs3[bi][upto] if upto < len(projs3[bi]) else {"e": "?"}
+        sig = {"kind": "rejected", "spec": "CallOut", "event": bad.get("e")}
+        verdict.add(sig, [json.dumps(allh[idx2[bi]])] + [json.dumps(p) for p in projs3[bi][:upto + 1]],
+                    "first unexplainable event #%d: %s" % (upto + 1, json.dumps(bad)))
+    print("TLC P3 CallOutTrace (same traces): %d executions / %d events accepted" % (acc3, nev3))
+    faults = {"err1", "err2", "hberr", "coerr", "copair", "copair2", "pi_err1", "inputto_err1", "netdead_err", "logon_err", "connect_err",
               "ttype_err1", "reset_err", "cleanup_err", "console_err"}
     nontrivial = len({json.dumps(h, sort_keys=True) for h in allh if any(s["a"] in faults for s in h[1:])})
     rc = verdict.finish()
